@@ -115,6 +115,17 @@ def run_estimator(case):
         return [viol(f"C04/sample/exception:{type(e).__name__}/{tag}",
                      f"CorrFunc.sample raised {yawx.exc_name(e)} for members {members}")], True
     v = []
+    # inspect-then-sample: looking at the arrays must not change what sample() returns
+    try:
+        for m in ("dd",) + tuple(members):
+            getattr(cf, m).get_array()
+        again = cf.sample()
+        if not (np.array_equal(again.data, got.data, equal_nan=True)
+                and np.array_equal(again.samples, got.samples, equal_nan=True)):
+            v.append(viol(f"C04/sample/changes-after-inspection/{tag}",
+                          "sample() returns another estimate after get_array() was called on the pair counts"))
+    except Exception as e:
+        v.append(viol(f"C04/get_array/exception:{type(e).__name__}", yawx.exc_name(e)))
     which = [i for i, d in enumerate(exp_d) if ref.close(got.data, d)]
     if not which:
         v.append(viol(f"C04/sample/data/{tag}",
